@@ -184,6 +184,9 @@ def normalise(ctx, viol, st):
         keep = data.copy()
         a = unnormalize(normalize(data, bounds), bounds); b = normalize(unnormalize(data, bounds), bounds)
         st["normalise_roundtrips"] += 1
+        lo_ = np.array([x[0] for x in bounds]); hi_ = np.array([x[1] for x in bounds])
+        if not np.array_equal(normalize(data.copy(), bounds), (keep - lo_) / (hi_ - lo_)) or not np.array_equal(unnormalize(data.copy(), bounds), keep * (hi_ - lo_) + lo_):
+            viol.append({"signature": "normalise-formula", "message": f"normalize / unnormalize are not (x - lower) / (upper - lower) and its inverse on {keep.tolist()} with bounds {bounds}", "replay": {"kind": "norm", "bounds": bounds, "data": keep.tolist()}})
         if not (np.array_equal(a, keep) and np.array_equal(b, keep) and np.array_equal(data, keep)):
             viol.append({"signature": "normalise-roundtrip", "message": f"normalize/unnormalize are not mutual inverses on {keep.tolist()} with bounds {bounds}", "replay": {"kind": "norm", "bounds": bounds, "data": keep.tolist()}})
 
